@@ -338,7 +338,7 @@ func (intr *treeInterpreter) fieldFromStruct(key string, value interface{}) (int
 	fieldName := string(unicode.ToUpper(first)) + key[n:]
 	if rv.Kind() == reflect.Struct {
 		v := rv.FieldByName(fieldName)
-		if !v.IsValid() {
+		if !v.IsValid() || !v.CanInterface() {
 			return nil, nil
 		}
 		return valueOf(v), nil
@@ -349,7 +349,7 @@ func (intr *treeInterpreter) fieldFromStruct(key string, value interface{}) (int
 		}
 		rv = rv.Elem()
 		v := rv.FieldByName(fieldName)
-		if !v.IsValid() {
+		if !v.IsValid() || !v.CanInterface() {
 			return nil, nil
 		}
 		return valueOf(v), nil
